@@ -268,10 +268,26 @@ func tokenizeForSemantics(content string) []semanticToken {
 	lexer := parser.NewLexer(content)
 	var tokens []semanticToken
 
+	// byte offset at which each line starts: columns and lengths are reported in UTF-16 code
+	// units and are computed from the byte span of a token, not from rune columns
+	lineStarts := []int{0}
+	for i := 0; i < len(content); i++ {
+		if content[i] == '\n' {
+			lineStarts = append(lineStarts, i+1)
+		}
+	}
+	utf16Col := func(line, offset int) uint32 {
+		if line < 1 || line > len(lineStarts) || offset > len(content) || offset < lineStarts[line-1] {
+			return 0
+		}
+		return uint32(lsputil.UTF16Len(content[lineStarts[line-1]:offset]))
+	}
+
 	inDirective := false
 	directiveType := ""
 	isPayee := false
 	currentLine := -1
+	prevType := parser.TokenEOF
 
 	for {
 		tok := lexer.Next()
@@ -281,6 +297,8 @@ func tokenizeForSemantics(content string) []semanticToken {
 
 		if tok.Pos.Line != currentLine {
 			currentLine = tok.Pos.Line
+			isPayee = false
+			prevType = parser.TokenEOF
 			if tok.Type == parser.TokenDirective {
 				inDirective = true
 				directiveType = tok.Value
@@ -293,6 +311,8 @@ func tokenizeForSemantics(content string) []semanticToken {
 				directiveType = ""
 			}
 		}
+		followsNumber := prevType == parser.TokenNumber
+		prevType = tok.Type
 
 		semType, ok := mapTokenType(tok.Type)
 		if !ok {
@@ -306,29 +326,44 @@ func tokenizeForSemantics(content string) []semanticToken {
 			}
 		}
 
-		if tok.Type == parser.TokenText && isPayee {
-			semType = TokenTypePayee
-			isPayee = false
+		if tok.Type == parser.TokenText {
+			switch {
+			case (followsNumber || (inDirective && directiveType == "commodity")) && isCommodityWord(tok.Value):
+				// a lower-case or non-ASCII commodity written after its number, or declared
+				semType = TokenTypeCommodity
+			case isPayee:
+				semType = TokenTypePayee
+				isPayee = false
+			}
+		}
+
+		// the token covers its raw text (a code with its parentheses, a quoted commodity with
+		// its quotes) without the blanks around it
+		start, end := tok.Pos.Offset, tok.End.Offset
+		if start < 0 || end > len(content) || start > end {
+			continue
+		}
+		raw := content[start:end]
+		trimmedLeft := strings.TrimLeft(raw, " \t")
+		start += len(raw) - len(trimmedLeft)
+		raw = strings.TrimRight(trimmedLeft, " \t\r")
+		if raw == "" {
+			continue
 		}
 
 		// Handle comments with tags - extract tag tokens
 		if tok.Type == parser.TokenComment {
-			tagTokens := extractTagTokensFromComment(tok)
+			tagTokens := extractTagTokensFromComment(tok, utf16Col(tok.Pos.Line, start))
 			if len(tagTokens) > 0 {
 				tokens = append(tokens, tagTokens...)
 				continue
 			}
 		}
 
-		length := uint32(lsputil.UTF16Len(tok.Value))
-		if tok.Type == parser.TokenComment {
-			length++
-		}
-
 		tokens = append(tokens, semanticToken{
 			line:      uint32(tok.Pos.Line - 1),
-			col:       uint32(tok.Pos.Column - 1),
-			length:    length,
+			col:       utf16Col(tok.Pos.Line, start),
+			length:    uint32(lsputil.UTF16Len(raw)),
 			tokenType: semType,
 			modifiers: modifiers,
 		})
@@ -337,7 +372,23 @@ func tokenizeForSemantics(content string) []semanticToken {
 	return tokens
 }
 
-func extractTagTokensFromComment(tok parser.Token) []semanticToken {
+// isCommodityWord reports whether a text token can be a commodity symbol (letters and digits
+// with at least one letter), the rule the parser applies to the word after a number.
+func isCommodityWord(value string) bool {
+	hasLetter := false
+	for _, r := range value {
+		if unicode.IsLetter(r) {
+			hasLetter = true
+		} else if !unicode.IsDigit(r) {
+			return false
+		}
+	}
+	return hasLetter
+}
+
+// extractTagTokensFromComment returns the tag tokens of a comment; commentCol is the UTF-16
+// column of the semicolon that starts the comment.
+func extractTagTokensFromComment(tok parser.Token, commentCol uint32) []semanticToken {
 	commentText := tok.Value
 	if !strings.Contains(commentText, ":") {
 		return nil
@@ -345,7 +396,10 @@ func extractTagTokensFromComment(tok parser.Token) []semanticToken {
 
 	var tokens []semanticToken
 	baseLine := uint32(tok.Pos.Line - 1)
-	baseCol := uint32(tok.Pos.Column - 1)
+	// +1 accounts for the semicolon; offsets inside the comment are bytes and are converted
+	colAt := func(byteOffset int) uint32 {
+		return commentCol + 1 + uint32(lsputil.UTF16Len(commentText[:byteOffset]))
+	}
 
 	parts := strings.Split(commentText, ",")
 	searchStart := 0
@@ -370,13 +424,10 @@ func extractTagTokensFromComment(tok parser.Token) []semanticToken {
 		tagStart += searchStart
 
 		// Tag name with colon: "name:"
-		tagNameWithColonLen := uint32(len(name) + 1)
-
-		// +1 to baseCol accounts for the semicolon that starts the comment
 		tokens = append(tokens, semanticToken{
 			line:      baseLine,
-			col:       baseCol + 1 + uint32(tagStart),
-			length:    tagNameWithColonLen,
+			col:       colAt(tagStart),
+			length:    uint32(lsputil.UTF16Len(name) + 1),
 			tokenType: TokenTypeTag,
 			modifiers: 0,
 		})
@@ -391,8 +442,8 @@ func extractTagTokensFromComment(tok parser.Token) []semanticToken {
 				if valueStart != -1 {
 					tokens = append(tokens, semanticToken{
 						line:      baseLine,
-						col:       baseCol + 1 + uint32(tagNameEnd+valueStart),
-						length:    uint32(len(value)),
+						col:       colAt(tagNameEnd + valueStart),
+						length:    uint32(lsputil.UTF16Len(value)),
 						tokenType: TokenTypeTagValue,
 						modifiers: 0,
 					})
